@@ -45,7 +45,7 @@ from .. import common, vloop
 
 POLL = 1.0
 EPS = 1e-9
-KINDS = ["periodic", "iterable", "textfile", "filenames"]
+KINDS = ["periodic", "iterable", "textfile", "filenames", "q"]
 
 _run_id = contextvars.ContextVar("c18_run_id", default=None)
 
@@ -166,6 +166,11 @@ def run_impl(case, scratch):
             d = os.path.join(scratch, "dir")
             os.makedirs(d)
             src = Stream.filenames(d, poll_interval=POLL, **kw)
+        elif kind == "q":
+            import queue
+            import streamz.sources as ssrc
+            fobj = queue.Queue()
+            src = ssrc.from_q(fobj, sleep_time=POLL, **kw)
         else:
             raise ValueError(kind)
         state["src"] = src
@@ -225,6 +230,8 @@ def run_impl(case, scratch):
                     fobj.data += "L%d\n" % nw[0]
                 elif kind == "filenames":
                     open(os.path.join(d, "f%03d" % nw[0]), "w").close()
+                elif kind == "q":
+                    fobj.put("Q%d" % nw[0])
                 nw[0] += 1
             else:
                 raise ValueError(op)
@@ -250,6 +257,8 @@ def written_items(case):
     n = sum(1 for op in case["ops"] if op[0] == "w")
     if case["kind"] == "textfile":
         return ["L%d\n" % i for i in range(n)]
+    if case["kind"] == "q":
+        return ["Q%d" % i for i in range(n)]
     return ["f%03d" % i for i in range(n)]
 
 
@@ -266,7 +275,8 @@ def oracle(case, log):
     fresh = False                # a run began since the last emission
     last_idx = -1                # shared iterator: index of the last emitted item
     run_info = {}                # l -> dict(disturbed, emitted)
-    seen_w = written_items(case) if kind in ("textfile", "filenames") else None
+    seen_w = written_items(case) if kind in ("textfile", "filenames", "q") else None
+    cycle_emits = {}             # from_q: emissions of the cycle in progress, per run() invocation
     n_emit = 0
 
     for i, ev in enumerate(log):
@@ -298,6 +308,7 @@ def oracle(case, log):
             if in_cycle:
                 return ("cycle-overlap", "polling cycle begins at t=%s while another is in progress (event %d)" % (ev["t"], i))
             in_cycle.add(ev["l"])
+            cycle_emits[ev["l"]] = 0
             if pending:
                 return ("poll-before-downstream-done",
                         "polling cycle begins at t=%s while %d emit-awaitable(s) handed out by an earlier cycle are still pending: the source "
@@ -361,7 +372,14 @@ def oracle(case, log):
                 if x != n_emit - 1:
                     return ("emission-order", "from_periodic emitted %r as its %d-th value" % (x, n_emit))
             else:
-                name = x if kind == "textfile" else os.path.basename(x)
+                if kind == "q":
+                    # one cycle of from_q takes ONE item off the queue: a further item taken in the same cycle after stop() is a
+                    # new take after stop (the cycle in progress may finish, nothing new begins)
+                    cycle_emits[ev["l"]] = cycle_emits.get(ev["l"], 0) + 1
+                    if last_ctl != "start" and cycle_emits[ev["l"]] > 1:
+                        return ("cycle-after-stop", "from_q took %r off the queue and emitted it although the last control call is %s "
+                                "(the %d-th item of one polling cycle; event %d)" % (x, last_ctl, cycle_emits[ev["l"]], i))
+                name = x if kind in ("textfile", "q") else os.path.basename(x)
                 if n_emit > len(seen_w) or name != seen_w[n_emit - 1]:
                     return ("emission-order", "%s emitted %r as its %d-th record, written were %r" % (kind, x, n_emit, seen_w))
     if active:
@@ -488,7 +506,7 @@ def gen_case(rng, kind=None):
     ops = []
     n_ops = rng.choice([4, 8, 12, 18, 26])
     started = False
-    if kind in ("textfile", "filenames") and rng.random() < 0.7:
+    if kind in ("textfile", "filenames", "q") and rng.random() < 0.7:
         ops += [["w"]] * rng.randint(1, 3)
     while len(ops) < n_ops:
         r = rng.random()
@@ -524,7 +542,7 @@ def gen_case(rng, kind=None):
             ops.append(["resolve"])
             if rng.random() < 0.5:
                 ops.append(rng.choice([["settle"], ["tick"]]))
-        elif kind in ("textfile", "filenames"):
+        elif kind in ("textfile", "filenames", "q"):
             ops.append(["w"])
         else:
             ops.append(["settle"])
